@@ -232,14 +232,15 @@ Proof. exact rxso3_Ws_old_regime3_error. Qed.
 Theorem C01_sim3_Ws_old_B3_coefficient_large : forall sg : R, sg <> 0 -> Rabs sg <= 1/8 ->
   1/2 <= rxso3_Ws_B3_old sg * (sg * sg).
 Proof. exact B3_old_large. Qed.
-(* a concrete input, for the eps of float64 and of float32: phi = (eps,0,0), sigma = 2 eps, tau = (0,1,0): the
-   y-component of the old translation differed from that of the matrix exponential (~1) by more than 1/5 (the clause
-   "Exp is the matrix exponential" was FALSE of the old code in exact arithmetic); the repaired model is within 10^-25 *)
-Theorem C01_sim3_Ws_old_B3_refuted : forall eps : R, eps = / 2^52 \/ eps = / 2^23 ->
+(* a concrete input, for every 0 < eps <= 1/16 (in particular the eps of float64 and of float32): phi = (eps,0,0),
+   sigma = 2 eps, tau = (0,1,0): the y-component of the old translation differed from that of the matrix exponential (~1)
+   by more than 1/10 (the clause "Exp is the matrix exponential" was FALSE of the old code in exact arithmetic); the
+   repaired model is within eps^3 on the same input *)
+Theorem C01_sim3_Ws_old_B3_refuted : forall eps : R, 0 < eps <= 1/16 ->
   exists (tau phi : vec3R) (sg : R), vnorm phi <= eps /\ eps < Rabs sg /\
     forall (E : @mat3 R) (p : vec3R), is_mexp_sim3 tau phi sg E p ->
-      Rabs (vc 1 (mvmul (Ws_old_regime3 phi sg) tau) - vc 1 p) > 1/5 /\
-      Rabs (vc 1 (fst (sim3_exp eps (tau, (phi, sg)))) - vc 1 p) < / 10^25.
+      Rabs (vc 1 (mvmul (Ws_old_regime3 phi sg) tau) - vc 1 p) > 1/10 /\
+      Rabs (vc 1 (fst (sim3_exp eps (tau, (phi, sg)))) - vc 1 p) <= eps ^ 3.
 Proof. exact sim3_old_regime3_refuted. Qed.
 
 (* ======================= Taylor branches: coefficient bounds ======================= *)
